@@ -7,6 +7,7 @@ import Cppcms.C10.Spec
 
 model lines (answers in the harness's format):
   cfg <srvlimit,srvlimit..> <l1,l1,..>       l1 = `n` (client without L1) or the L1's limit;  → `ok | <tail>`
+  reset                                       same cluster, all caches cleared directly (counters keep running) → `ok | <tail>`
   fetch <c> <now> <key> <0|1>                 → `miss` | `hit <val> <trigs> <deadline> <gen>`   | <tail>
   store <c> <now> <key> <val> <trigs> <deadline> | rise <c> <trig> | clear <c> | remove <c> <key>   → `ok | <tail>`
   stats <c>                                   → `stats <keys> <triggers> | <tail>`
@@ -132,6 +133,11 @@ def modelLine (st : DState) (w : List String) : DState × String :=
       let cl := Cluster.init sl l1
       ({ cl := cl, sp := C07.Spec.empty, mayEvict := sl.any (· > 0) }, s!"ok | {tailStr cl}")
     | _, _ => (st, "bad-op")
+  | ["reset"] =>
+    let cl : Cluster :=
+      { servers := st.cl.servers.map fun s => (C07.step s .clear).1
+        l1s := st.cl.l1s.map fun o => o.map fun l => (C07.step l .clear).1 }
+    ({ st with cl := cl, sp := C07.Spec.empty }, s!"ok | {tailStr cl}")
   | ["raw", i, now, fr] =>
     match i.toNat?, now.toInt?, parseHex fr with
     | some i, some now, some fr =>
@@ -195,6 +201,7 @@ def judgeLine (st : DState) (w : List String) : DState × String :=
   let (implw, casew) := splitAt ";" w
   let (res, _) := splitAt "|" implw
   match casew with
+  | ["reset"] => ({ st with sp := C07.Spec.empty }, if res == ["ok"] then "1" else "0 reset-answer")
   | ["cfg", sl, l1] =>
     match parseLimits sl, parseL1s l1 with
     | some sl, some _ =>
